@@ -1451,6 +1451,38 @@ pub fn c19a_case(seed: u64) -> HCase {
     HCase { seed, cfg, idle_timeout_secs: 3600, ops, check_reports: true, use_async: false }
 }
 
+/// C19 worker-batching family: 1-3 batches of commands queued behind the parked incremental worker.
+pub fn c19w_case(seed: u64) -> crate::incsc::ICase {
+    use crate::incsc::IOp;
+    let mut rw = Rng::new(seed, P_WORK);
+    let one = |r: &mut Rng| -> T { vec![V::I32(r.range(1, 4) as i32)] };
+    let mut batches = Vec::new();
+    for _ in 0..rw.range(1, 3) {
+        let mut ops = Vec::new();
+        let mut readers = 0;
+        for _ in 0..rw.range(2, 6) {
+            match rw.below(10) {
+                0..=3 => {
+                    let k = rw.range(1, 2);
+                    ops.push(IOp::Insert { tuples: (0..k).map(|_| one(&mut rw)).collect() });
+                }
+                4..=5 => ops.push(IOp::Delete { tuples: vec![one(&mut rw)] }),
+                6..=7 => ops.push(IOp::Advance),
+                _ if readers < 2 => {
+                    readers += 1;
+                    ops.push(IOp::Reader);
+                }
+                _ => ops.push(IOp::Advance),
+            }
+        }
+        if readers == 0 || rw.chance(1, 2) {
+            ops.push(IOp::Reader);
+        }
+        batches.push(ops);
+    }
+    crate::incsc::ICase { seed, batches }
+}
+
 // ------------------------------------------------------------------------------------------ VEC
 
 use crate::vecsc::{VCase, VOp};
